@@ -184,6 +184,7 @@ pub fn def() -> PropDef {
         needs_pairing: false,
         subs: vec![
             Box::new(crate::engine::EnumSub { name: "long-history", rule: super::longhist::RULE, run: run_long_history, replay: super::longhist::replay, exhaustive: false }),
+            Box::new(crate::engine::EnumSub { name: "two-input-bursts", rule: super::longhist::BURST_RULE, run: run_two_input_bursts, replay: super::longhist::replay_burst, exhaustive: false }),
             Box::new(Sub { name: "encode", rule: "bytes == model ZCash encoding; decode(encode(P)) == P", quick: 7_500, thorough: 80_000, strategy: || boxed(enc_case_strategy()), check: check_enc_with_sizes }),
             Box::new(Sub { name: "reencode-accepted", rule: "for every byte string a decoder accepts: encode(decode(s)) == s", quick: 18_000, thorough: 200_000, strategy: || boxed(dec_case_strategy()), check: check_reencode_any }),
             super::corpus_sub_decode(),
